@@ -20,7 +20,19 @@ func verifWildParamSchema(p string) *openapi3.SchemaRef {
 	prim := func(t string) *openapi3.SchemaRef {
 		return &openapi3.SchemaRef{Value: &openapi3.Schema{Type: &openapi3.Types{t}}}
 	}
-	switch verifChoose(p+"schema", 10) {
+	switch verifChoose(p+"schema", 13) {
+	case 10: // objects composed with allOf / anyOf / oneOf (each branch declares its own members)
+		return &openapi3.SchemaRef{Value: &openapi3.Schema{AllOf: openapi3.SchemaRefs{
+			{Value: &openapi3.Schema{Type: &openapi3.Types{"object"}, Properties: openapi3.Schemas{"a": prim("integer")}}},
+			{Value: &openapi3.Schema{Type: &openapi3.Types{"object"}, Properties: openapi3.Schemas{"k": prim("string")}}}}}}
+	case 11:
+		return &openapi3.SchemaRef{Value: &openapi3.Schema{AnyOf: openapi3.SchemaRefs{
+			{Value: &openapi3.Schema{Type: &openapi3.Types{"object"}, Properties: openapi3.Schemas{"a": prim("integer")}}},
+			{Value: &openapi3.Schema{Type: &openapi3.Types{"object"}, Properties: openapi3.Schemas{"k": prim("string")}}}}}}
+	case 12:
+		return &openapi3.SchemaRef{Value: &openapi3.Schema{Type: &openapi3.Types{"object"}, OneOf: openapi3.SchemaRefs{
+			{Value: &openapi3.Schema{Type: &openapi3.Types{"object"}, Required: []string{"a"}, Properties: openapi3.Schemas{"a": prim("integer")}}},
+			{Value: &openapi3.Schema{Type: &openapi3.Types{"object"}, Required: []string{"k"}, Properties: openapi3.Schemas{"k": prim("string")}}}}}}
 	case 0:
 		return prim("integer")
 	case 1:
@@ -67,7 +79,7 @@ func verifAnyText(name string, max int) string {
 	return s
 }
 
-//verif:harness id=C10 tier=quick,thorough witness=end bounds="parameters in path/query/header with every legal style/explode cell and 10 schema shapes (primitives, array, object, array via allOf, anyOf, oneOf, untyped+pattern, object with additionalProperties) that pass the real Parameter.Validate x raw text = any ASCII string of 0-3 bytes (delimiters, prefixes and empty pieces included); ValidateParameter with MultiError symbolic; assertion = no panic"
+//verif:harness id=C10 tier=quick,thorough witness=end bounds="parameters in path/query/header with every legal style/explode cell and 13 schema shapes (primitives, array, object, objects composed with allOf / anyOf / oneOf, array via allOf, anyOf, oneOf, untyped+pattern, object with additionalProperties) that pass the real Parameter.Validate x raw text = any ASCII string of 0-3 bytes (delimiters, prefixes and empty pieces included); ValidateParameter with MultiError symbolic; assertion = no panic"
 func verifH_C10_params() {
 	in := []string{"path", "query", "header"}[verifChoose("in", 3)]
 	var style string
